@@ -190,12 +190,13 @@ def renderOut {S} (cd : Codec S) : Out S → String
 
 structure Loop (S : Type) where
   σ : State S := {}
+  o : OState S := {}
   skip : Nat := 0
   dead : Bool := false     -- a panic ends the case
 
 variable {S : Type} [Add S] [Mul S] [Neg S] [Sub S] [ScalarOps S] [BEq S]
 
-def handleLine (cd : Codec S) (orc : Oracle S) (l : Loop S) (line : String) : Loop S × List String :=
+def handleLine (cd : Codec S) (useOracle : Bool) (l : Loop S) (line : String) : Loop S × List String :=
   let toks := (line.trimAscii.toString.splitOn " ").filter (· ≠ "")
   match toks with
   | [] => (l, [])
@@ -208,24 +209,25 @@ def handleLine (cd : Codec S) (orc : Oracle S) (l : Loop S) (line : String) : Lo
       | none => (l, ["BADCMD"])
       | some c =>
         let (σ', out) := step l.σ c
-        let spec := orc l.σ c out
+        let (o', spec) := if useOracle then oracleStep l.o l.σ c out σ' else (l.o, none)
         let l' : Loop S := match out with
           | .panic _ => { l with dead := true }
-          | .skip n => { l with σ := σ', skip := n }
-          | _ => { l with σ := σ' }
-        (l', [renderOut cd out ++ (match spec with | some s => " ## " ++ s | none => "")])
+          | .skip n => { l with σ := σ', o := o', skip := n }
+          | _ => { l with σ := σ', o := o' }
+        (l', [renderOut cd out ++ (match spec with | some s => " ## " ++ renderOut cd s | none => "")])
 
-partial def loop (cd : Codec S) (orc : Oracle S) (h : IO.FS.Stream) (out : IO.FS.Stream) (l : Loop S) : IO Unit := do
+partial def loop (cd : Codec S) (useOracle : Bool) (h : IO.FS.Stream) (out : IO.FS.Stream) (l : Loop S) : IO Unit := do
   let line ← h.getLine
   if line.isEmpty then return ()
-  let (l', outs) := handleLine cd orc l line
+  let (l', outs) := handleLine cd useOracle l line
   for o in outs do out.putStrLn o
-  loop cd orc h out l'
+  loop cd useOracle h out l'
 
 def main (args : List String) : IO Unit := do
   let stdin ← IO.getStdin
   let stdout ← IO.getStdout
-  match args with
-  | ["float"] => loop floatCodec (oracle floatCodec.render) stdin stdout {}
-  | ["f32"] => loop f32Codec (oracle f32Codec.render) stdin stdout {}
-  | _ => loop ratCodec (oracle ratCodec.render) stdin stdout {}
+  let orc := !(args.contains "nospec")
+  match args.head? with
+  | some "float" => loop floatCodec orc stdin stdout {}
+  | some "f32" => loop f32Codec orc stdin stdout {}
+  | _ => loop ratCodec orc stdin stdout {}
